@@ -29,10 +29,34 @@ func debugGetFEnv(L *LState) int {
 	return 1
 }
 
+// getThread implements the optional leading thread argument of getinfo, getlocal, setlocal
+// and traceback (ldblib.c getthread): the state to query and the number of arguments to skip.
+func getThread(L *LState) (*LState, int) {
+	if th, ok := L.Get(1).(*LState); ok {
+		return th, 1
+	}
+	return L, 0
+}
+
+// stackOf resolves a level on the thread ls. A coroutine that is not running is stopped inside
+// coroutine.yield, whose frame gopher-lua has already left: there level 0 stands for that
+// function (inYield) and the Lua frames follow from level 1, as in Lua 5.1.
+func stackOf(L, ls *LState, level int) (dbg *Debug, ok, inYield bool) {
+	if ls != L && ls.currentFrame != nil && !ls.currentFrame.Fn.IsG && L.Status(ls) == "suspended" {
+		if level == 0 {
+			return nil, true, true
+		}
+		level--
+	}
+	dbg, ok = ls.GetStack(level)
+	return dbg, ok, false
+}
+
 func debugGetInfo(L *LState) int {
-	L.CheckTypes(1, LTFunction, LTNumber)
-	arg1 := L.Get(1)
-	what := L.OptString(2, "Slunf")
+	ls, arg := getThread(L)
+	L.CheckTypes(arg+1, LTFunction, LTNumber)
+	arg1 := L.Get(arg + 1)
+	what := L.OptString(arg+2, "Slunf")
 	var dbg *Debug
 	var fn LValue
 	var err error
@@ -40,14 +64,20 @@ func debugGetInfo(L *LState) int {
 	switch lv := arg1.(type) {
 	case *LFunction:
 		dbg = &Debug{}
-		fn, err = L.GetInfo(">"+what, dbg, lv)
+		fn, err = ls.GetInfo(">"+what, dbg, lv)
 	case LNumber:
-		dbg, ok = L.GetStack(int(lv))
+		var inYield bool
+		dbg, ok, inYield = stackOf(L, ls, int(lv))
 		if !ok {
 			L.Push(LNil)
 			return 1
 		}
-		fn, err = L.GetInfo(what, dbg, LNil)
+		if inYield {
+			dbg = &Debug{Name: "yield", What: "G", CurrentLine: -1}
+			fn = LNil
+		} else {
+			fn, err = ls.GetInfo(what, dbg, LNil)
+		}
 	}
 
 	if err != nil {
@@ -72,13 +102,18 @@ func debugGetInfo(L *LState) int {
 }
 
 func debugGetLocal(L *LState) int {
-	level := L.CheckInt(1)
-	idx := L.CheckInt(2)
-	dbg, ok := L.GetStack(level)
+	ls, arg := getThread(L)
+	level := L.CheckInt(arg + 1)
+	idx := L.CheckInt(arg + 2)
+	dbg, ok, inYield := stackOf(L, ls, level)
 	if !ok {
-		L.ArgError(1, "level out of range")
+		L.ArgError(arg+1, "level out of range")
 	}
-	name, value := L.GetLocal(dbg, idx)
+	if inYield {
+		L.Push(LNil)
+		return 1
+	}
+	name, value := ls.GetLocal(dbg, idx)
 	if len(name) > 0 {
 		L.Push(LString(name))
 		L.Push(value)
@@ -113,14 +148,19 @@ func debugSetFEnv(L *LState) int {
 }
 
 func debugSetLocal(L *LState) int {
-	level := L.CheckInt(1)
-	idx := L.CheckInt(2)
-	value := L.CheckAny(3)
-	dbg, ok := L.GetStack(level)
+	ls, arg := getThread(L)
+	level := L.CheckInt(arg + 1)
+	idx := L.CheckInt(arg + 2)
+	value := L.CheckAny(arg + 3)
+	dbg, ok, inYield := stackOf(L, ls, level)
 	if !ok {
-		L.ArgError(1, "level out of range")
+		L.ArgError(arg+1, "level out of range")
 	}
-	name := L.SetLocal(dbg, idx, value)
+	if inYield {
+		L.Push(LNil)
+		return 1
+	}
+	name := ls.SetLocal(dbg, idx, value)
 	if len(name) > 0 {
 		L.Push(LString(name))
 	} else {
